@@ -92,6 +92,7 @@ def run(ctx, rep):
         else:
             rep.undecided('D1.log', eff, eff.node.name, 'form of log_probability_density not recognised', construct='log density')
     gauss.report_order(ctx, rep, 'D2.align', ['_transform_to_normal', 'probability_density', 'cumulative_distribution'], floor=4)
+    gauss.report_marginal_index(ctx, rep, 'D2.align', ['_transform_to_normal', 'probability_density', 'cumulative_distribution'])
     # D2.series: structure of the container normalisation (searched in _transform_to_normal and its private helpers)
     from ..idioms import private_closure, resolve
     from ..boolcond import Conds
